@@ -133,3 +133,57 @@ def snap_diff(before, after):
         if k not in after or before[k] != after[k] or type(before[k]) is not type(after[k]):
             return "%s was %r, is now %r" % (k, before[k], after.get(k))
     return None
+
+
+# ------------------------------------------------------------------------------------------------ call / edit / call
+def _decoy_orders(orders, salt):
+    """a profile of the same shape (same number of distinct orders, same alternatives) that differs from `orders`"""
+    n = len(orders)
+    if n == 0:
+        return None
+    i = salt % n
+    o = orders[i]
+    if len(o) >= 2:
+        j = (salt // 7) % (len(o) - 1)
+        new = o[:j] + (o[j + 1], o[j]) + o[j + 2:]
+        if new not in orders:
+            return orders[:i] + [new] + orders[i + 1:]
+    alts = sorted({a for q in orders for c in q for a in c})
+    if len(alts) < 2:
+        return None
+    nxt = {a: alts[(k + 1) % len(alts)] for k, a in enumerate(alts)}
+    dec = [tuple(tuple(nxt[a] for a in c) for c in q) for q in orders]
+    return None if dec == orders else dec
+
+
+def prime_stale(inst, calls, salt):
+    """call / in-place edit / call on ONE instance object.  The object first holds a decoy profile of the same shape
+    (same alternatives, same number of distinct orders, same multiplicities, hence the same num_voters,
+    num_unique_orders and num_alternatives); every function in `calls` is evaluated on it (answers discarded); then
+    the public `orders` list and `multiplicity` table are edited in place back to the real profile.  The caller then asks
+    its questions on the returned object: anything remembered about the decoy under a stamp made of counters is stale.
+    Returns (instance, primed?)."""
+    target = [tuple(tuple(c) for c in o) for o in inst.orders]
+    if list(inst.multiplicity) != target:
+        return inst, False
+    mult = dict(inst.multiplicity)
+    dec = _decoy_orders(target, salt)
+    if dec is None:
+        return inst, False
+    inst.orders[:] = dec
+    inst.multiplicity.clear()
+    inst.multiplicity.update({d: mult[o] for d, o in zip(dec, target)})
+    for f in calls:
+        try:
+            f(inst)
+        except Exception:
+            pass
+    inst.orders[:] = target
+    inst.multiplicity.clear()
+    inst.multiplicity.update(mult)
+    return inst, True
+
+
+def salt_of(payload):
+    import zlib
+    return zlib.crc32(repr(payload).encode())
